@@ -314,6 +314,8 @@ class Stats:
 # the walk goes on in step.  The C02 check keeps the model's (proved) tables instead: a wrong firewall / data table then shows
 # in what it wrongly lets later actions do, which is what C02 is about.
 SYNC_ON_DIFF = True
+# actions are encoded and decoded (Action.to_json / from_json) before they are handed to the real world, as on the wire
+WIRE = True
 
 
 class WorldSession:
@@ -327,6 +329,7 @@ class WorldSession:
         self.use_firewall = use_firewall
         self.w = make_world(objects=objects, scenario=scenario, use_firewall=use_firewall)
         self.tables0 = C.world2j(self.w)
+        self.data0 = copy.deepcopy(self.w._data)      # where the scenario puts its datapoints (by node name)
         self.sync()
         self.gen = Gen(rng, self.w)
         self.returned = []    # (agent, step index, snapshot canon, view object)
@@ -360,7 +363,9 @@ class WorldSession:
         aj = C.action2j(action)
         world_before = C.world2j(self.w)
         try:
-            new = world_step(self.w, view, action, agent)
+            # an agent's action always reaches the world through the wire: what is executed is what the decoder makes of the message
+            wire = Action.from_json(action.to_json()) if WIRE else action
+            new = world_step(self.w, view, wire, agent)
             raised = None
         except Exception as e:      # the coordinator answers BAD_REQUEST
             new, raised = None, repr(e)
@@ -450,6 +455,7 @@ def run_walks(drv, rng, stats: Stats, on_fail, worlds, walks_per_world, steps, r
                         {"kind": "loader", "scenario": sess.label, "difference": dd})
         # C11: every datapoint that can ever appear in a view is one of the scenario's datapoints (all four fields)
         universe = {(d.owner, d.id, d.size, d.type) for ds in sess.w._data.values() for d in ds}
+        placed = None
         for wk_i in range(walks_per_world):
             nag = rng.choice([1, 1, 2, 3])
             wf = reachable_only or rng.random() < 0.7
@@ -460,6 +466,10 @@ def run_walks(drv, rng, stats: Stats, on_fail, worlds, walks_per_world, steps, r
                 history[ag].append((copy.deepcopy(v), v))
             # probe script for C08: recorded in the first episode, replayed after reset
             script = []
+            # C11 "at the place where it is reported": per host, the datapoints the scenario puts there plus those exfiltrated
+            # there in THIS episode (model's verdict)
+            if placed is None:
+                placed = {hn: set(ds) for hn, ds in sess.data0.items()}      # by node: a node with several addresses holds its data at each of them
             readonly = []        # (view the agent held, action) of the read-only actions of the episode
             probe_next = []      # agents whose current view object was changed behind their back: let them play a refused action next
             forced = []          # directed steps: (agent index, action), executed before anything else
@@ -537,6 +547,16 @@ def run_walks(drv, rng, stats: Stats, on_fail, worlds, walks_per_world, steps, r
                 new = rec.get("new")
                 if new is None:
                     continue
+                if t == "exfil" and rec["pre"]:
+                    placed.setdefault(sess.w._ip_to_hostname.get(act.parameters["target_host"]), set()).add(act.parameters["data"])
+                if wf and placed is not None:
+                    gained = [(str(h), (d.owner, d.id)) for h, ds in new.known_data.items() for d in ds
+                              if d not in views[ag].known_data.get(h, ()) and d not in placed.get(sess.w._ip_to_hostname.get(h), ())]
+                    if gained:
+                        on_fail("C11", "misplaced-datapoint:" + t, f"the view returned by {t} in {sess.label} reports datapoints at hosts where the scenario does not put them and nobody "
+                                f"exfiltrated them in this episode: {gained[:3]}", replay_of(sess, rec))
+                        for h, ds in new.known_data.items():
+                            placed.setdefault(sess.w._ip_to_hostname.get(h), set()).update(ds)
                 alien = [(str(k), (d.owner, d.id, d.size, d.type)) for k, ds in new.known_data.items() for d in ds if (d.owner, d.id, d.size, d.type) not in universe]
                 if alien and wf:
                     on_fail("C11", "alien-datapoint:" + t, f"the view returned by {t} in {sess.label} holds datapoints that exist nowhere in the scenario: {alien[:3]}", replay_of(sess, rec))
@@ -625,6 +645,7 @@ def run_walks(drv, rng, stats: Stats, on_fail, worlds, walks_per_world, steps, r
                     stats.cross_agent.add(hash(json.dumps([rec["view"], rec["action"]], sort_keys=True)))
             if resets:
                 r = sess.reset()
+                placed = {hn: set(ds) for hn, ds in sess.data0.items()}
                 stats.resets += 1
                 if r["nontrivial"]:
                     stats.reset_nontrivial += 1
@@ -637,6 +658,11 @@ def run_walks(drv, rng, stats: Stats, on_fail, worlds, walks_per_world, steps, r
                 for (vb, act) in readonly:
                     rec = sess.step(vb, act)
                     stats.post_reset_probes = getattr(stats, "post_reset_probes", 0) + 1
+                    if rec.get("new") is not None and wf:
+                        left = [(str(h), (d.owner, d.id)) for h, ds in rec["new"].known_data.items() for d in ds if d not in vb.known_data.get(h, ()) and d not in placed.get(sess.w._ip_to_hostname.get(h), ())]
+                        if left:
+                            on_fail("C11", "misplaced-datapoint-after-reset", f"after a reset in {sess.label}, {rec['action']['t']} reports datapoints at hosts where the scenario does not put them "
+                                    f"(nobody has exfiltrated anything in the new episode): {left[:3]}", replay_of(sess, rec, {"script": [(a, C.action2j(x)) for a, x in script]}))
                     if not rec["agree"]:
                         on_fail("C08", "remembered-after-reset:" + rec["action"]["t"],
                                 f"after a reset in {sess.label}, {rec['action']['t']} does not give what it gives on the initial world: differs in {rec['diff']}",
